@@ -18,6 +18,7 @@ import (
 type c16Case struct {
 	Stream string `json:"stream"`
 	Reader string `json:"reader,omitempty"` // restrict to one reader (replay)
+	Cap    int    `json:"chancap,omitempty"` // capacity of the record channel handed to the streaming readers
 }
 
 type refRecord struct {
@@ -123,14 +124,18 @@ type readResult struct {
 
 // driveStream runs one of the channel-based readers under the controlled scheduler with a driver
 // that selects on its three channels, as every caller in gofasta does.
-func driveStream(reader string, stream string) readResult {
+func driveStream(reader string, stream string, chanCap ...int) readResult {
+	ccap := 0
+	if len(chanCap) > 0 {
+		ccap = chanCap[0]
+	}
 	var rr readResult
 	body := func() {
 		cErr := make(chan error)
 		cDone := make(chan bool)
 		switch reader {
 		case "plain":
-			ch := make(chan fastaio.FastaRecord)
+			ch := make(chan fastaio.FastaRecord, ccap)
 			zzvs.Go(func() { fastaio.ReadAlignment(strings.NewReader(stream), ch, cErr, cDone) }, "c16.drv")
 			for {
 				switch zzvs.Select("c16.sel", false, zzvs.CaseRecv(ch), zzvs.CaseRecv(cErr), zzvs.CaseRecv(cDone)) {
@@ -144,11 +149,16 @@ func driveStream(reader string, stream string) readResult {
 					return
 				case 2:
 					<-cDone
+					for len(ch) > 0 { // what the reader had queued before it signalled the end (buffered channel)
+						r := <-ch
+						rr.Recs = append(rr.Recs, refRecord{r.ID, r.Description, r.Seq})
+						rr.Idx = append(rr.Idx, r.Idx)
+					}
 					return
 				}
 			}
 		default:
-			ch := make(chan fastaio.EncodedFastaRecord)
+			ch := make(chan fastaio.EncodedFastaRecord, ccap)
 			zzvs.Go(func() {
 				if reader == "score" {
 					fastaio.ReadEncodeScoreAlignment(strings.NewReader(stream), false, ch, cErr, cDone)
@@ -156,11 +166,19 @@ func driveStream(reader string, stream string) readResult {
 					fastaio.ReadEncodeAlignment(strings.NewReader(stream), false, ch, cErr, cDone)
 				}
 			}, "c16.drv")
+			// the records are kept as delivered and only decoded when the stream has ended (as closest does with
+			// its query list and the list reader's callers do): a record must stay what it was when it was sent
+			var kept []fastaio.EncodedFastaRecord
+			defer func() {
+				for _, r := range kept {
+					rr.Recs = append(rr.Recs, refRecord{r.ID, r.Description, r.Decode().Seq})
+				}
+			}()
 			for {
 				switch zzvs.Select("c16.sel", false, zzvs.CaseRecv(ch), zzvs.CaseRecv(cErr), zzvs.CaseRecv(cDone)) {
 				case 0:
 					r := <-ch
-					rr.Recs = append(rr.Recs, refRecord{r.ID, r.Description, r.Decode().Seq})
+					kept = append(kept, r)
 					rr.Idx = append(rr.Idx, r.Idx)
 					rr.Score = append(rr.Score, r.Score)
 					rr.Counts = append(rr.Counts, [4]int{r.Count_A, r.Count_C, r.Count_G, r.Count_T})
@@ -170,6 +188,13 @@ func driveStream(reader string, stream string) readResult {
 					return
 				case 2:
 					<-cDone
+					for len(ch) > 0 {
+						r := <-ch
+						kept = append(kept, r)
+						rr.Idx = append(rr.Idx, r.Idx)
+						rr.Score = append(rr.Score, r.Score)
+						rr.Counts = append(rr.Counts, [4]int{r.Count_A, r.Count_C, r.Count_G, r.Count_T})
+					}
 					return
 				}
 			}
@@ -258,9 +283,9 @@ func c16Check(c c16Case, res *engine.JobResult) {
 			}
 			rr, vout = readViaVariants(c.Stream, refID)
 		default:
-			rr = driveStream(rd, c.Stream)
+			rr = driveStream(rd, c.Stream, c.Cap)
 		}
-		cc := c16Case{c.Stream, rd}
+		cc := c16Case{c.Stream, rd, c.Cap}
 		if rr.Outcome != "returned" {
 			cause := "fasta:" + rr.Outcome
 			switch {
@@ -447,7 +472,7 @@ func init() {
 	register(&Prop{
 		ID:    "C16",
 		Level: "model_checking",
-		Rule: "bounded-exhaustive over byte streams: (1) every byte string of length <=5 (thorough 6) over the 9-byte alphabet {> A c N - x SP LF CR} given to the five readers (ReadAlignment, ReadEncodeAlignment, ReadEncodeScoreAlignment - each driven under the controlled scheduler by a select loop on their three channels -, ReadEncodeAlignmentToList, and findReference through variants.Variants), thorough additionally every string of length 7 to the synchronous list reader; (2) for 6 (thorough 12) small valid alignments every way of breaking each sequence into lines x {upper,lower,mixed case} x {LF,CRLF} x {final newline, none} and a blank line inserted at every line boundary; (3) structured corruptions of those alignments: every truncation, single-byte deletion, replacement by / insertion of one of {>, x, SP, LF, -} at every offset, every line dropped or doubled. " +
+		Rule: "bounded-exhaustive over byte streams: (1) every byte string of length <=5 (thorough 6) over the 9-byte alphabet {> A c N - x SP LF CR} given to the five readers (ReadAlignment, ReadEncodeAlignment, ReadEncodeScoreAlignment - each driven under the controlled scheduler by a select loop on their three channels -, ReadEncodeAlignmentToList, and findReference through variants.Variants), thorough additionally every string of length 7 to the synchronous list reader; (2) for 6 (thorough 12) small valid alignments every way of breaking each sequence into lines x {upper,lower,mixed case} x {LF,CRLF} x {final newline, none} and a blank line inserted at every line boundary; (3) structured corruptions of those alignments: every truncation, single-byte deletion, replacement by / insertion of one of {>, x, SP, LF, -, NUL, 0xC3, TAB} at every offset, every line dropped or doubled. " +
 			"A 30-line reference parser classifies each stream valid / invalid / undefined. Non-trivial = valid stream; each stream generated once",
 		Assumptions: []string{
 			"line tokenisation is bufio.ScanLines' (split at LF, one trailing CR dropped)",
@@ -478,6 +503,9 @@ func init() {
 			for i := range c16Alignments(tier) {
 				jobs = append(jobs, fmt.Sprintf("layout:%d", i))
 				jobs = append(jobs, fmt.Sprintf("corrupt:%d", i))
+				if i == 0 {
+					jobs = append(jobs, "many")
+				}
 			}
 			jobs = append(jobs, "cli")
 			return jobs, nil
@@ -531,7 +559,7 @@ func init() {
 			case "corrupt":
 				// structured corruptions of a valid alignment (one line per record, and lines of width 2):
 				// every truncation, every single-byte deletion, every single-byte replacement by and every
-				// insertion of one of {'>', 'x', ' ', LF, '-'}, every line dropped, every line doubled
+				// insertion of one of {'>', 'x', ' ', LF, '-', NUL, 0xC3, TAB}, every line dropped, every line doubled
 				var i int
 				fmt.Sscan(p[1], &i)
 				a := c16Alignments(tier)[i]
@@ -553,7 +581,7 @@ func init() {
 					}
 					for k := 0; k <= len(base); k++ {
 						try(base[:k])
-						for _, b := range []byte(">x \n-") {
+						for _, b := range []byte(">x \n-\x00\xc3\t") {
 							try(base[:k] + string(b) + base[k:])
 							if k < len(base) {
 								try(base[:k] + string(b) + base[k+1:])
@@ -568,6 +596,26 @@ func init() {
 						try(strings.Join(drop, "\n") + "\n")
 						dbl := append(append(append([]string{}, lines[:k+1]...), lines[k]), lines[k+1:]...)
 						try(strings.Join(dbl, "\n") + "\n")
+					}
+				}
+			case "many":
+				// alignments of 1..12, 60 and 130 distinct records (more than any channel buffer in gofasta), through
+				// unbuffered and buffered record channels, every record kept by the consumer until the stream ends
+				for _, n := range []int{1, 2, 3, 4, 5, 6, 7, 8, 9, 10, 11, 12, 60, 130} {
+					for _, w := range []int{0, 3} {
+						var sb strings.Builder
+						for i := 0; i < n; i++ {
+							seq := []byte("ACGTNN-A")
+							seq[i%8] = "ACGTRYKMSW"[i%10]
+							if i%3 == 1 {
+								seq[(i/8+3)%8] = "ctgan"[(i/8)%5]
+							}
+							fmt.Fprintf(&sb, ">r%d rec %d\n%s\n", i, i, wrapSeq(string(seq), w))
+						}
+						for _, cp := range []int{0, 1, 5, 52} {
+							c16Check(c16Case{Stream: sb.String(), Cap: cp}, res)
+							res.States++
+						}
 					}
 				}
 			case "cli":
